@@ -158,9 +158,86 @@ fn run_forced(sc: &Value, idx: u64) {
     std::mem::forget(thief);
 }
 
+/// Forced interleaving for the shared queue (WSQConc.tla: push = count, then insert): every push is held
+/// between its two halves while another thread pops the shared queue once, then released.
+fn run_gap(sc: &Value, idx: u64) {
+    let ordered = sc["ordered"].as_bool().unwrap_or(true);
+    let n = sc["ops"].as_u64().unwrap_or(8) as i32;
+    rec(json!({"ev": "creset", "scenario": sc["id"], "threads": 2, "cap": 4, "ordered": ordered}));
+    THIEF_GO.store(false, Ordering::SeqCst);
+    THIEF_DONE.store(false, Ordering::SeqCst);
+    open_coroutine_core::common::verif::set_pause(Some(Box::new(|point| {
+        if point == "shared_push_between_count_and_insert" {
+            THIEF_DONE.store(false, Ordering::SeqCst);
+            THIEF_GO.store(true, Ordering::SeqCst);
+            let t0 = std::time::Instant::now();
+            while !THIEF_DONE.load(Ordering::SeqCst) && t0.elapsed() < Duration::from_secs(2) {
+                std::thread::yield_now();
+            }
+        }
+    })));
+    let g: G = if ordered {
+        G::Ord(Box::leak(Box::new(OrderedWorkStealQueue::new(1, 4))))
+    } else {
+        G::Plain(Box::leak(Box::new(WorkStealQueue::new(1, 4))))
+    };
+    let gp = Arc::new(SendPtr(g));
+    let gp2 = gp.clone();
+    static STOP: std::sync::atomic::AtomicBool = std::sync::atomic::AtomicBool::new(false);
+    STOP.store(false, Ordering::SeqCst);
+    let popper = std::thread::spawn(move || {
+        let g = gp2.0;
+        let mut log = vec![];
+        loop {
+            while !THIEF_GO.load(Ordering::SeqCst) {
+                if STOP.load(Ordering::SeqCst) {
+                    return log;
+                }
+                std::thread::yield_now();
+            }
+            THIEF_GO.store(false, Ordering::SeqCst);
+            progress();
+            if let Some(v) = g.pop() {
+                log.push((CSEQ.fetch_add(1, Ordering::SeqCst), 1u8, v));
+            }
+            THIEF_DONE.store(true, Ordering::SeqCst);
+        }
+    });
+    let mut all: Vec<(u64, u8, i32)> = vec![];
+    for k in 0..n {
+        progress();
+        let item = 1_000_000 + k + 1;
+        all.push((CSEQ.fetch_add(1, Ordering::SeqCst), 0, item));
+        g.push(i64::from(k % 2), item);
+    }
+    STOP.store(true, Ordering::SeqCst);
+    open_coroutine_core::common::verif::set_pause(None);
+    match popper.join() {
+        Ok(log) => all.extend(log),
+        Err(e) => rec(json!({"ev": "died", "how": "panic", "msg": panic_msg(&e), "scenario": idx, "step": 0})),
+    }
+    all.sort();
+    for (_, kind, item) in &all {
+        rec(json!({"ev": if *kind == 0 { "cpush" } else { "cpop" }, "item": item}));
+    }
+    rec(json!({"ev": "quiesce", "glen": g.len()}));
+    loop {
+        progress();
+        let v = g.pop().unwrap_or(0);
+        rec(json!({"ev": "dgpop", "item": v}));
+        if v == 0 {
+            break;
+        }
+    }
+    rec(json!({"ev": "cend", "scenario": sc["id"], "drained": true, "spills": 1}));
+}
+
 fn run(sc: &Value, idx: u64) {
     if sc.get("force").and_then(Value::as_str) == Some("spill_steal") {
         return run_forced(sc, idx);
+    }
+    if sc.get("force").and_then(Value::as_str) == Some("push_pop_gap") {
+        return run_gap(sc, idx);
     }
     let threads = sc["threads"].as_u64().unwrap() as usize;
     let cap = sc["cap"].as_u64().unwrap() as usize;
